@@ -1218,6 +1218,30 @@ Theorem check_duplicate_exports_perm {V} (pkg_exports : list (bytes * V)) k1 k2 
   Permutation k1 k2 -> check_duplicate_exports pkg_exports k1 = check_duplicate_exports pkg_exports k2.
 Proof. intro Hp. unfold check_duplicate_exports. rewrite (sort_strings_perm k1 k2 Hp). reflexivity. Qed.
 
+(* ... and on a valid bundle it never fires, whatever the listing order put before the file: checkDuplicateExports is not a
+   step of [load] for that reason *)
+Lemma nodup_app_disjoint {A} (l1 l2 : list A) x : NoDup (l1 ++ l2) -> In x l1 -> In x l2 -> False.
+Proof.
+  induction l1 as [|a r IH]; cbn [app In]; intros Hn H1 H2; [destruct H1|].
+  inversion Hn as [|? ? Hni Hr]; subst. destruct H1 as [->|H1]; [apply Hni, in_or_app; right; exact H2|exact (IH Hr H1 H2)].
+Qed.
+Theorem check_duplicate_exports_valid {F} (pre post : list (@srcfile F)) f :
+  valid_pkg (pre ++ f :: post) -> check_duplicate_exports (collect_exports pre) (f_exports f) = None.
+Proof.
+  intros [Hn _]. unfold check_duplicate_exports.
+  destruct (find _ (sort_strings (f_exports f))) as [n|] eqn:E; [exfalso|reflexivity].
+  apply find_some in E. destruct E as [Hin Hg].
+  apply (Permutation_in _ (isort_perm (fun x => x) bleb (f_exports f))) in Hin.
+  assert (Hpre : In n (map fst (all_exports pre))).
+  { destruct (in_dec (list_eq_dec N.eq_dec) n (map fst (all_exports pre))) as [H|H]; [exact H|].
+    rewrite collect_exports_as_set_all, (set_all_get_notin _ _ _ H) in Hg. discriminate. }
+  assert (Eall : all_exports (pre ++ f :: post) = (all_exports pre ++ (file_exports f ++ all_exports post))%list)
+    by (unfold all_exports; rewrite map_app, concat_app; reflexivity).
+  rewrite Eall, map_app, map_app in Hn.
+  apply (nodup_app_disjoint _ _ n Hn Hpre). apply in_or_app. left.
+  unfold file_exports. rewrite map_map. cbn [fst]. rewrite map_id. exact Hin.
+Qed.
+
 (* every one of these model functions RUN on two iteration orders of the same collection *)
 Definition loop_probes_statement : Prop :=
   let e := [([98], 2); ([97], 1); ([99], 3)] in
